@@ -27,7 +27,9 @@ META = {
              "value compared with the Lean withGlobalTx. distinct = distinct op; all non-trivial",
         trusted=["fakecoord (harness/coord.go): scripted coordinator as a getty.Session; transport error = WritePkg "
                  "error; 'no reply' (20 s RpcRequestTimeout) is represented by the same transport-error class"],
-        assumptions=["retry count 0 (unbounded) is capped by cancelling the context when the script runs out"],
+        assumptions=["a script that runs out ends with the context cancelled (the harness cancels it)",
+                     "'ok' = an acknowledgement in the sense of commitRefusal (8 wire forms), 'failed' = a refusal "
+                     "(8 wire forms: Failed with a status that decides nothing, or a rollback status)"],
         exhaustive={"quick": True, "thorough": True},
         timeout=900,
     ),
